@@ -206,10 +206,10 @@ class Report(object):
             else:
                 new_viol.append(f)
         status = 0
-        if self.broken:
+        if new_viol:
+            status = 1   # a witness is a witness, even if another rule could not be decided
+        elif self.broken:
             status = 2
-        elif new_viol:
-            status = 1
         for f, k in known_hits:
             out_lines.append("KNOWN-FINDING: property=%s %s %s -- %s" % (self.prop, f.rule, f.key, f.what))
         replay_paths = []
